@@ -132,6 +132,22 @@ Theorem C05_case_unknown_variant_rejected :
     <> Ok tt.
 Proof. exact ShapesDecl.case_unknown_variant_rejected. Qed.
 
+(* the instance a round-5 seed broke (it checked the pattern only of arms that BIND a value): an arm that binds nothing
+   (`Nope -> .. end`), in a case that has an `else`, naming a variant the enum does not have -- rejected like any other *)
+Theorem C05_case_unknown_variant_no_binding_else :
+  forall name ev sp tvars variants var0 value vsp pre0 pat psp body bsp post0 ft csp,
+  ~ In pat (map fst variants) ->
+  forall pre mid post dname dvar dkind dty (C : ectx) dsp sp0 fuel vars,
+    let e := ECase (EVariant ev var0 value vsp) (pre0 ++ CaseBranch pat psp None body bsp :: post0) (Some ft) csp in
+    typecheck fuel (mkResolved vars
+      (pre ++ SEnum name ev sp tvars variants :: mid ++
+       SDefinition dname dvar dkind dty (plug_e e (SStatementExpression e sp0) C) dsp :: post))
+    <> Ok tt.
+Proof.
+  intros name ev sp tvars variants var0 value vsp pre0 pat psp body bsp post0 ft csp.
+  exact (ShapesDecl.case_unknown_variant_rejected name ev sp tvars variants var0 value vsp pre0 pat psp None body bsp post0 (Some ft) csp).
+Qed.
+
 (* a `case` without `else` that does not list every variant of the enum (arms naming variants that do not
    exist are covered by the theorem above: together, the arm set must be exactly the variant set) *)
 Theorem C05_case_not_total_rejected : forall name ev sp tvars variants var0 value vsp branches csp k0,
@@ -198,6 +214,20 @@ Example C05_example_start_not_fn :
   = Err (mkErr KMismatch sp0) [].
 Proof. vm_compute. reflexivity. Qed.
 
+(* E :: enum P int, Q end ; start :: fn do case E.P 1 do Nope -> end else end end -- no binding, with else: UnknownVariant;
+   with the arm `P -> end` instead: accepted *)
+Definition case_prog (pat : string) : resolved :=
+  mkResolved [mkVar 0 "E" sp0 true Const; mkVar 1 "start" (spl 5) true Const]
+    [SEnum "E" 0 sp0 [] [("P", (spl 2, TResolved BInt (spl 2))); ("Q", (spl 3, TResolved BVoid (spl 3)))];
+     SDefinition "start" 1 Const (TImplied (spl 5))
+       (EFunction "lambda" [] (TResolved BVoid (spl 5))
+          [SStatementExpression
+             (ECase (EVariant 0 "P" (EInt 1 (spl 6)) (spl 6)) [CaseBranch pat (spl 7) None [] (spl 7)] (Some []) (spl 6)) (spl 6)]
+          false (spl 5)) (spl 5)].
+Example C05_example_case_no_binding_else :
+  typecheck 60 (case_prog "Nope") = Err (mkErr KUnknownVariant (spl 6)) [] /\ typecheck 60 (case_prog "P") = Ok tt.
+Proof. split; vm_compute; reflexivity. Qed.
+
 (* B :: blob { a: int, b: str } ; start :: fn do B { a: 1 } end  -- missing field *)
 Definition blob_prog (fields : list (string * expr)) : resolved :=
   mkResolved [mkVar 0 "B" sp0 true Const; mkVar 1 "start" (spl 5) true Const; mkVar 2 "self" (spl 6) false Const]
@@ -234,6 +264,7 @@ Print Assumptions C05_copy_shape.
 Print Assumptions C05_absent_field_access_rejected.
 Print Assumptions C05_absent_field_rejected.
 Print Assumptions C05_case_unknown_variant_rejected.
+Print Assumptions C05_case_unknown_variant_no_binding_else.
 Print Assumptions C05_case_not_total_rejected.
 
 (* ---- source tie: the hand-written model behind these theorems mirrors the files below; the digests of their
